@@ -925,6 +925,16 @@ func (em *emitter) emitBuiltin(call *ast.Call, reg int8, dstType reflect.Type) {
 		em.fb.exitStack()
 	case "make":
 		typ := em.typ(args[0])
+		if reg != 0 && dstType.Kind() == reflect.Interface {
+			// The value is converted to the interface type: a value of a
+			// type defined in the program keeps its type.
+			em.fb.enterStack()
+			tmp := em.fb.newRegister(typ.Kind())
+			em.emitBuiltin(call, tmp, typ)
+			em.changeRegister(false, tmp, reg, typ, dstType)
+			em.fb.exitStack()
+			return
+		}
 		switch typ.Kind() {
 		case reflect.Map:
 			if len(args) == 1 {
@@ -961,6 +971,15 @@ func (em *emitter) emitBuiltin(call *ast.Call, reg int8, dstType reflect.Type) {
 			panic(internalError("unexpected type %s", typ))
 		}
 	case "new":
+		if typ := em.types.PointerTo(em.typ(args[0])); reg != 0 && dstType.Kind() == reflect.Interface {
+			// The pointer is converted to the interface type.
+			em.fb.enterStack()
+			tmp := em.fb.newRegister(reflect.Pointer)
+			em.fb.emitNew(em.typ(args[0]), tmp)
+			em.changeRegister(false, tmp, reg, typ, dstType)
+			em.fb.exitStack()
+			return
+		}
 		em.fb.emitNew(em.typ(args[0]), reg)
 	case "panic":
 		arg := em.emitExpr(args[0], emptyInterfaceType)
